@@ -77,10 +77,10 @@ Lemma to_outgroup_l t r og upd supp t' r' :
   /\ (forall a b, dist a b t' = dist a b t).
 Proof. intros H NI TK ND. apply equivU_unfold. eapply to_outgroup_equivU; eauto. Qed.
 
-Lemma outgroup_first_l t r og upd supp t' r' :
-  to_outgroup t r og upd supp = Ok (t', r') ->
+Lemma outgroup_first_l t r og upd t' r' :
+  to_outgroup t r og upd false = Ok (t', r') ->
   exists k rest, t_kids t' = k :: rest /\ t_id k = og.
-Proof. intros H. eapply to_outgroup_flag_first; eauto. Qed.
+Proof. intros H. eapply (proj2 (to_outgroup_flag_first _ _ _ _ _ _ _ H)); reflexivity. Qed.
 
 Lemma ladderize_l asc t :
   NoDup (leaf_taxa t) ->
